@@ -86,6 +86,13 @@ impl Drop for TransactionEvents<'_> {
     }
 }
 
+#[cfg(feature = "verif-hooks")]
+impl TransactionEventHandler {
+    pub(crate) fn verif_pending(&self) -> usize {
+        self.events.len()
+    }
+}
+
 #[cfg(test)]
 mod stun_event_tests {
     use stun_rs::TransactionId;
